@@ -11,6 +11,7 @@ import (
 	"sort"
 	"strings"
 	"testing"
+	"testing/synctest"
 	"time"
 
 	"github.com/cosi-project/runtime/pkg/controller/runtime/options"
@@ -140,10 +141,11 @@ func listIDs(l resource.List, err error) []string {
 	return ids
 }
 
-// watchIDs collects the ids of Created events until the stream is quiet.
+// watchIDs collects the ids of Created events of a bootstrap-contents watch up to its Bootstrapped event (the stream says itself
+// when it is complete: no judgement by the clock, apart from a generous overall limit that shows up in the result).
 func watchIDs(ch <-chan state.Event, want int) []string {
 	ids := []string{}
-	timeout := time.After(3 * time.Second)
+	timeout := time.After(60 * time.Second)
 
 	for {
 		select {
@@ -160,12 +162,8 @@ func watchIDs(ch <-chan state.Event, want int) []string {
 			if want > 0 && len(ids) == want {
 				return ids
 			}
-		case <-time.After(150 * time.Millisecond):
-			if want <= 0 {
-				return ids
-			}
 		case <-timeout:
-			return ids
+			return append(ids, "!timeout: no Bootstrapped event")
 		}
 	}
 }
@@ -289,12 +287,13 @@ func TestSelectors(t *testing.T) {
 		}()
 
 		// 7. in-memory kind watch, live: a filtered watch on an empty state, then the resources are created
-		func() {
-			wctx, wcancel := context.WithCancel(ctx)
+		// (in a bubble: "everything that was to be delivered has been delivered" is decided by quiescence, not by the clock)
+		synctest.Test(t, func(t *testing.T) {
+			wctx, wcancel := context.WithCancel(context.Background())
 			defer wcancel()
 
 			live := state.WrapCore(namespaced.NewState(inmem.Build))
-			ch := make(chan state.Event, 64)
+			ch := make(chan state.Event)
 
 			if werr := live.WatchKind(wctx, kind, ch, watchOpts(row)...); werr != nil {
 				emit("inmem-watch-live", row, []string{"!error: " + werr.Error()})
@@ -308,8 +307,32 @@ func TestSelectors(t *testing.T) {
 				}
 			}
 
-			emit("inmem-watch-live", row, watchIDs(ch, 0))
-		}()
+			ids := []string{}
+
+			for {
+				synctest.Wait()
+
+				select {
+				case ev := <-ch:
+					switch ev.Type { //nolint:exhaustive
+					case state.Created:
+						ids = append(ids, ev.Resource.Metadata().ID())
+					case state.Errored:
+						ids = append(ids, "!errored: "+ev.Error.Error())
+					}
+
+					continue
+				default:
+				}
+
+				break
+			}
+
+			emit("inmem-watch-live", row, ids)
+
+			wcancel()
+			synctest.Wait()
+		})
 	}
 
 	// ID queries: every site must agree with regexp.MatchString
